@@ -265,4 +265,10 @@ def run(F, R, tier):
     ims = [im for im in contracts.handwritten_impls(F, "clone::Clone", ("azure_proxy_agent",)) if "/key_keeper/key.rs" in im["file"]]
     for im in ims:
         contracts.faithful_clone(F, R, "C02.R7", im)
-    R.floor("C02.R7", len(ims), 5, "hand-written Clone impls in key_keeper/key.rs (AuthorizationItem, Privilege, Role, Identity, RoleAssignment, Key)")
+    # every rule-document type is Clone one way or the other (derived impls are faithful by construction)
+    need = ["AuthorizationItem", "Privilege", "Role", "Identity", "RoleAssignment"]
+    have = {im["self_ty"].rsplit("::", 1)[-1] for im in F.impls if str(im["trait"]).endswith("clone::Clone") and "/key_keeper/key.rs" in im["file"]}
+    R.check(set(need) <= have, "C02.R7", "C02.R7:rule-document-types-are-clone", "proxy_agent/src/key_keeper/key.rs",
+            "the rule document types %s implement Clone (hand-written and checked: %d, derived: %d)" % (need, len([i for i in ims if i["self_ty"].rsplit("::", 1)[-1] in need]),
+                                                                                                       len([n for n in need if n in have]) - len([i for i in ims if i["self_ty"].rsplit("::", 1)[-1] in need])),
+            "rule document types without a Clone impl: %s" % sorted(set(need) - have))
